@@ -48,8 +48,8 @@ type scope struct {
 	// State
 	disposed int32 // atomic
 
-	// closer is the goroutine whose Close call won the disposed flag and runs
-	// the disposal (atomic; 0 until then)
+	// closer is the goroutine whose Close call won the disposed flag, while it
+	// runs the disposal (0 before and after)
 	closer atomic.Int64
 
 	// closeDone is closed when the Close call that won the disposed flag has
@@ -291,7 +291,7 @@ func (s *scope) Close() error {
 		// context watcher): wait, so that a returned Close always means closed.
 		// A call made from inside that very disposal - by the Close method of an
 		// instance of this scope - cannot wait for it
-		if s.closer.Load() == goroutineID() {
+		if runsOn(&s.closer) {
 			return nil
 		}
 		<-s.closeDone
@@ -302,6 +302,7 @@ func (s *scope) Close() error {
 
 	err := s.dispose()
 	s.closeErr = err
+	s.closer.Store(0)
 	close(s.closeDone)
 	return err
 }
@@ -315,7 +316,7 @@ func (s *scope) closeFromOwner() error {
 	if !atomic.CompareAndSwapInt32(&s.disposed, 0, 1) {
 		// (the owner's Close may itself have been called from inside this scope's
 		// disposal, by the Close method of one of its instances)
-		if s.closer.Load() == goroutineID() {
+		if runsOn(&s.closer) {
 			return nil
 		}
 		<-s.closeDone
@@ -326,6 +327,7 @@ func (s *scope) closeFromOwner() error {
 
 	err := s.dispose()
 	s.closeErr = err
+	s.closer.Store(0)
 	close(s.closeDone)
 	return err
 }
